@@ -155,8 +155,14 @@ inductive Consumer where
   | remove (pre : List Item)
   | small (free : Nat) (pre : List Item)
   | ser (limit : Nat) (payload : String)
+  | insertFast (pre : List Item)   -- insert_all on a Fast (multi-index) store
   | set                              -- collect into HashSet / BTreeSet
   | rio (plan : FmtPlan) (payload : String)
+
+/-- payload `Z` = a writer that is simply full (`Ok(0)` for ever): `write_all` turns that into
+`ErrorKind::WriteZero`, whose message is what the sink error carries -/
+def writerPayload (e : String) : String :=
+  if e == "Z" then hexOfString "failed to write whole buffer" else e
 
 def parseConsumer (cs : List Char) : Option Consumer :=
   match splitOn '.' cs with
@@ -176,9 +182,10 @@ def parseConsumer (cs : List Char) : Option Consumer :=
     | 'c' :: j => (natOf j).map fun j => .rio ⟨false, some j, false⟩ e
     | _ => none
   | ['s' :: 'm' :: 'a' :: 'l' :: 'l' :: [], f, pre] => do some (.small (← natOf f) (← parseItemsDots pre))
-  | ['s' :: 'e' :: 'r' :: [], l, e] => (natOf l).map fun l => .ser l (String.ofList e)
+  | ['s' :: 'e' :: 'r' :: [], l, e] => (natOf l).map fun l => .ser l (writerPayload (String.ofList e))
   | [w, pre] =>
-    if w == "add".toList || w == "ins".toList || w == "addh".toList then (parseItemsDots pre).map .insert
+    if w == "ins".toList then (parseItemsDots pre).map .insertFast
+    else if w == "add".toList || w == "addh".toList then (parseItemsDots pre).map .insert
     else if w == "rem".toList || w == "remb".toList then (parseItemsDots pre).map .remove
     else none
   | _ => none
@@ -226,6 +233,8 @@ structure Out where
   final : String := "-"
   /-- how many steps were taken from the source (script length minus what is left) -/
   pulled : Nat := 0
+  /-- multi-index stores: do all indexes hold the same statements? -/
+  idx : Option Bool := none
 
 def renderOut (pfx : String) (o : Out) : List String :=
   let (ret, side, payload) := match o.ret with
@@ -238,6 +247,7 @@ def renderOut (pfx : String) (o : Out) : List String :=
    kv (pfx ++ "val") (match o.val with | some n => toString n | none => "-"),
    kv (pfx ++ "final") o.final] ++
   (if pfx == "" then [kv "pulled" (toString o.pulled)] else []) ++
+  (match o.idx with | some b => [kvB (pfx ++ "idx") b] | none => []) ++
   -- the number of `Ok(true)` rounds is not part of the property: informational only (no such field in the
   -- implementation's reply)
   (match o.steps with | some n => [kv (pfx ++ "info.steps") (toString n)] | none => [])
@@ -291,6 +301,12 @@ def runConsumer {σ : Type} (S : Source σ Item String) (s : σ) (used : σ → 
     match insertAll S s (mkStore none pre) with
     | (s', log, g, r) =>
       { log := log, ret := storeErr r, val := okVal r, final := renderItems (sortItems g.present), pulled := used s' }
+  | .insertFast pre =>
+    let p := pre.eraseDups
+    match insertAllFast S s ⟨p, p, p, (pre.map Item.val).eraseDups, none⟩ with
+    | (s', log, g, r) =>
+      { log := log, ret := storeErr r, val := okVal r, final := renderItems (sortItems g.spo), pulled := used s',
+        idx := some g.coherentB }
   | .remove pre =>
     match removeAll S s (mkStore none pre) with
     | (s', log, g, r) =>
